@@ -227,7 +227,7 @@ func (ls *List) Map(ctx context.Context, fn Object) Object {
 	case *Builtin:
 		result := make([]Object, 0, len(ls.items))
 		for _, value := range ls.items {
-			outputValue := obj.fn(ctx, value)
+			outputValue := callBuiltinCallback(ctx, obj, value)
 			if IsError(outputValue) {
 				return outputValue
 			}
@@ -267,6 +267,25 @@ func (ls *List) Map(ctx context.Context, fn Object) Object {
 	return NewList(result)
 }
 
+// maxBuiltinCallbackDepth bounds how deeply builtins that were given as
+// callbacks may call one another.
+const maxBuiltinCallbackDepth = 256
+
+type builtinCallbackDepthKey struct{}
+
+// callBuiltinCallback calls a builtin that a list method was given as its
+// callback. The call does not go through the VM and pushes no frame there, so
+// the VM's frame limit does not stop a callback that ends up in the method it
+// was given to (l := []; m := l.map; l.append(m); m(m)). The nesting is
+// counted in the context instead, and too deep a nesting is an error.
+func callBuiltinCallback(ctx context.Context, fn *Builtin, args ...Object) Object {
+	depth, _ := ctx.Value(builtinCallbackDepthKey{}).(int)
+	if depth >= maxBuiltinCallbackDepth {
+		return EvalErrorf("eval error: maximum callback depth of %d exceeded", maxBuiltinCallbackDepth)
+	}
+	return fn.fn(context.WithValue(ctx, builtinCallbackDepthKey{}, depth+1), args...)
+}
+
 func (ls *List) Filter(ctx context.Context, fn Object) Object {
 	callFunc, found := GetCallFunc(ctx)
 	if !found {
@@ -282,9 +301,15 @@ func (ls *List) Filter(ctx context.Context, fn Object) Object {
 	var result []Object
 	for _, value := range ls.items {
 		filterArgs[0] = value
-		decision, err := callFunc(ctx, fn.(*Function), filterArgs)
-		if err != nil {
-			return NewError(err)
+		var decision Object
+		if builtin, ok := fn.(*Builtin); ok {
+			decision = callBuiltinCallback(ctx, builtin, value)
+		} else {
+			var err error
+			decision, err = callFunc(ctx, fn.(*Function), filterArgs)
+			if err != nil {
+				return NewError(err)
+			}
 		}
 		if IsError(decision) {
 			return decision
@@ -310,9 +335,15 @@ func (ls *List) Each(ctx context.Context, fn Object) Object {
 	eachArgs := make([]Object, 1)
 	for _, value := range ls.items {
 		eachArgs[0] = value
-		result, err := callFunc(ctx, fn.(*Function), eachArgs)
-		if err != nil {
-			return NewError(err)
+		var result Object
+		if builtin, ok := fn.(*Builtin); ok {
+			result = callBuiltinCallback(ctx, builtin, value)
+		} else {
+			var err error
+			result, err = callFunc(ctx, fn.(*Function), eachArgs)
+			if err != nil {
+				return NewError(err)
+			}
 		}
 		if IsError(result) {
 			return result
